@@ -282,7 +282,7 @@ def run_shard(spec, workdir):
             v.setdefault("case", {"recipe": recipe, "optimize": optimize})
         res["violations"].extend(viols)
         shutil.rmtree(wd, ignore_errors=True)
-        if k < 1 and spec.get("shard", 0) == 0:
+        if not res["samples"] and spec.get("shard", 0) == 0:
             res["samples"].append({"recipe": recipe, "optimize": optimize, "schedules": "see rule"})
     res["violations"].extend(random_stratum(spec.get("randoms", 12), workdir, rng, res))
     return res
